@@ -158,60 +158,83 @@ def _ninja(bdir):
     return r
 
 
+_held = {}    # flavor -> open lock file (shared lock kept for the life of the process)
+
+
 def build(flavor="asan", quiet=False):
+    """Build (if needed) and return a Build.  Locking: a process that uses a build keeps a SHARED flock on it
+    until it exits; rebuilding needs the EXCLUSIVE lock, so a build directory is never relinked under a
+    running check.  Worker processes forked by a check inherit VERIF_BUILT_<flavor> and skip all of this."""
     repo = repo_path()
     tag = hashlib.sha1(repo.encode()).hexdigest()[:10]
     root = os.path.join(VERIF, ".build")
     os.makedirs(root, exist_ok=True)
     bdir = os.path.join(root, "%s-%s" % (flavor, tag))
     lockp = os.path.join(root, "%s-%s.lock" % (flavor, tag))
+    envkey = "VERIF_BUILT_%s_%s" % (flavor, tag)
+    if os.environ.get(envkey):
+        return Build(flavor, bdir, repo, os.environ[envkey])
     t0 = time.time()
-    with open(lockp, "w") as lk:
+    lk = open(lockp, "w")
+    fcntl.flock(lk, fcntl.LOCK_SH)
+    digest, per = _tree_digest(repo)
+    manp = os.path.join(bdir, ".verif-tree.json")
+
+    def up_to_date():
+        try:
+            old = json.load(open(manp))
+        except Exception:
+            return None
+        if old.get("digest") == digest and old.get("flags") == FLAVORS[flavor] and \
+                all(os.path.exists(p) for p in (os.path.join(bdir, "bin", "dbus-daemon"), os.path.join(bdir, "lib", "libdbus-1.so"))):
+            return old
+        return None
+
+    if up_to_date() is None:
+        fcntl.flock(lk, fcntl.LOCK_UN)
         fcntl.flock(lk, fcntl.LOCK_EX)
         digest, per = _tree_digest(repo)
-        manp = os.path.join(bdir, ".verif-tree.json")
-        old = None
-        if os.path.exists(manp):
+        if up_to_date() is None:
+            old = None
             try:
                 old = json.load(open(manp))
             except Exception:
                 old = None
-        if old and old.get("digest") == digest and old.get("flags") == FLAVORS[flavor] \
-                and all(os.path.exists(p) for p in (os.path.join(bdir, "bin", "dbus-daemon"),
-                                                    os.path.join(bdir, "lib", "libdbus-1.so"))):
-            return Build(flavor, bdir, repo, digest)
-        if old and old.get("flags") != FLAVORS[flavor]:
-            shutil.rmtree(bdir, ignore_errors=True)
-        if not os.path.exists(os.path.join(bdir, "build.ninja")):
-            shutil.rmtree(bdir, ignore_errors=True)
-            _configure(repo, bdir, flavor)
-        # make sure changed files are seen as newer than their objects even if a tool
-        # preserved/rewound mtimes: compare per-file hashes with the recorded ones
-        changed = []
-        if old:
-            oldper = old.get("files", {})
-            changed = [f for f, d in per.items() if oldper.get(f) != d]
-            removed = [f for f in oldper if f not in per]
-            if removed:
-                changed.append("<removed>")
-        r = _ninja(bdir)
-        if r.returncode != 0:
-            # one retry from scratch (stale cmake state), then give up
-            shutil.rmtree(bdir, ignore_errors=True)
-            _configure(repo, bdir, flavor)
+            if old and old.get("flags") != FLAVORS[flavor]:
+                shutil.rmtree(bdir, ignore_errors=True)
+            if not os.path.exists(os.path.join(bdir, "build.ninja")):
+                shutil.rmtree(bdir, ignore_errors=True)
+                _configure(repo, bdir, flavor)
+            changed = []
+            if old:
+                oldper = old.get("files", {})
+                changed = [f for f, d in per.items() if oldper.get(f) != d]
+                if [f for f in oldper if f not in per]:
+                    changed.append("<removed>")
             r = _ninja(bdir)
             if r.returncode != 0:
-                raise BuildError("ninja failed:\n" + r.stdout[-6000:] + r.stderr[-2000:])
-        elif old and changed and "ninja: no work to do" in r.stdout:
-            shutil.rmtree(bdir, ignore_errors=True)
-            _configure(repo, bdir, flavor)
-            r = _ninja(bdir)
-            if r.returncode != 0:
-                raise BuildError("ninja failed:\n" + r.stdout[-6000:] + r.stderr[-2000:])
-        with open(manp, "w") as fh:
-            json.dump({"digest": digest, "flags": FLAVORS[flavor], "files": per}, fh)
-    if not quiet:
-        sys.stderr.write("[build] %s ready in %.1fs (%s)\n" % (flavor, time.time() - t0, bdir))
+                # one retry from scratch (stale cmake state), then give up
+                shutil.rmtree(bdir, ignore_errors=True)
+                _configure(repo, bdir, flavor)
+                r = _ninja(bdir)
+                if r.returncode != 0:
+                    fcntl.flock(lk, fcntl.LOCK_UN)
+                    raise BuildError("ninja failed:\n" + r.stdout[-6000:] + r.stderr[-2000:])
+            elif old and changed and "ninja: no work to do" in r.stdout:
+                # files changed but ninja trusts (preserved) mtimes: rebuild from scratch
+                shutil.rmtree(bdir, ignore_errors=True)
+                _configure(repo, bdir, flavor)
+                r = _ninja(bdir)
+                if r.returncode != 0:
+                    fcntl.flock(lk, fcntl.LOCK_UN)
+                    raise BuildError("ninja failed:\n" + r.stdout[-6000:] + r.stderr[-2000:])
+            with open(manp, "w") as fh:
+                json.dump({"digest": digest, "flags": FLAVORS[flavor], "files": per}, fh)
+            if not quiet:
+                sys.stderr.write("[build] %s rebuilt in %.1fs (%s)\n" % (flavor, time.time() - t0, bdir))
+        fcntl.flock(lk, fcntl.LOCK_SH)     # downgrade: keep others from relinking while we run
+    _held[flavor] = lk
+    os.environ[envkey] = digest
     return Build(flavor, bdir, repo, digest)
 
 
